@@ -315,6 +315,28 @@ func (f *freshness) fromData(v ssa.Value, seen map[ssa.Value]bool, depth int) st
 						return "the result of " + ssaName(callee)
 					}
 				}
+				// a typed container handed back as it came in (`if b, ok := v.([]byte); ok {
+				// return b }`): some return of the callee is one of its data parameters
+				if len(callee.Blocks) > 0 && depth < 8 {
+					why := ""
+					instrsOf(callee, func(in ssa.Instruction) {
+						ret, ok := in.(*ssa.Return)
+						if !ok || why != "" {
+							return
+						}
+						for _, rv := range ret.Results {
+							switch rv.Type().Underlying().(type) {
+							case *types.Slice, *types.Map, *types.Pointer:
+								if s := f.fromData(rv, map[ssa.Value]bool{}, depth+4); s != "" {
+									why = "the result of " + ssaName(callee) + " (which hands back " + s + ")"
+								}
+							}
+						}
+					})
+					if why != "" {
+						return why
+					}
+				}
 			}
 			return ""
 		}
